@@ -468,8 +468,11 @@ def gen_cases(tier, rng, pub, fam_rows, pfr_rows):
             hist.append(dict(base))                                                   # CA block, no ISK
             hist.append(dict(base, isk=rng.choice(ecc[rng.choice([256, 384])]), constraints=rng.randrange(1 << 32),
                              user_data=bytes(rng.getrandbits(8) for _ in range(rng.choice([0, 4, 33]))).hex(), signer="hash"))
-            hist.append(dict(base, isk=rng.choice(ecc[c_]), user_data="0a0b0c0d", signer="real", new_used=None))
-    streams["history: export / rkth / calculate_hash twice on one object; change of alignment, image length, SRK entries, used root index vs a fresh object"] = hist
+            hist.append(dict(base, isk=rng.choice(ecc[c_]), user_data="0a0b0c0d", signer="real"))
+            hist.append(dict(base, isk=rng.choice(ecc[c_]), user_data="0a0b0c0d", signer="hash", new_used=used,
+                             new_user_data=bytes(rng.getrandbits(8) for _ in range(rng.choice([1, 8, 40]))).hex(),
+                             new_constraints=rng.randrange(1 << 32)))
+    streams["history: export / rkth / calculate_hash twice on one object; change of alignment, image length, SRK entries, used root index + its signer, ISK user data / constraints vs a fresh object"] = hist
     return streams
 
 
@@ -877,18 +880,24 @@ def oracle_hist(c, r, pub):
             return ("history:second-export-differs:CertBlockV21.export", "export after calculate() differs")
         ch = r.get("changed")
         if ch is not None:
+            nu = c["new_used"]
+            what = f"used {used} -> {nu} with that root's signer" + (", new user data" if "new_user_data" in c else "") \
+                + (", new constraints" if "new_constraints" in c else "") + ", calculate(), create_isk_signature(force=True), export()"
             if ch[0] == "e":
-                return ("history:stale-after-change:CertBlockV21.used_root_cert", f"used {used} -> {c['new_used']}: {ch}")
+                return ("history:stale-after-change:CertBlockV21", f"{what}: {ch}")
             d = ch[1]
             if d["rkth"] != want or d["fresh_rkth"] != want:
-                return ("history:stale-after-change:CertBlockV21.rkth", f"used {used} -> {c['new_used']}: rkth {d['rkth']}")
-            if d["export_resigned"] != d["fresh_export"]:
-                return ("history:stale-after-change:CertBlockV21.used_root_cert:after-resign",
-                        f"used {used} -> {c['new_used']}, calculate(), create_isk_signature(force=True), export() != fresh block")
-            if d["export"] != d["fresh_export"]:
-                return ("history:stale-after-change:CertBlockV21.used_root_cert:isk-signature",
-                        f"used {used} -> {c['new_used']}, calculate(), export(): the ISK signature is still the one made over the OLD root key record "
-                        f"(create_isk_signature returns early when a signature exists)")
+                return ("history:stale-after-change:CertBlockV21.rkth", f"{what}: rkth {d['rkth']}")
+            if d["export"] != d["export_again"]:
+                return ("history:second-export-differs:CertBlockV21.export-after-change", what)
+            got, fresh = bytes.fromhex(d["export"]), bytes.fromhex(d["fresh_export"])
+            if c.get("isk") and c.get("signer") == "real":
+                cs = cs_of(pks[nu][1])
+                if got[:-2 * cs] != fresh[:-2 * cs] or not ecdsa_verify(pks[nu][1], (pks[nu][2], pks[nu][3]), got[12:len(got) - 2 * cs], got[-2 * cs:]):
+                    return ("history:stale-after-change:CertBlockV21.used_root_cert+signer",
+                            f"{what}: differs from a fresh block outside the signature, or the signature does not verify under root {nu}")
+            elif got != fresh:
+                return ("history:stale-after-change:CertBlockV21.used_root_cert+signer", f"{what} != export of a fresh block with the new settings")
     return None
 
 
